@@ -108,6 +108,10 @@ def oracle_pair(res, case, t1, t2, s1, s2, kw1, kw2, out):
             res.fail('broadcast_to_common_suffix raised although one operand is a prefix of the other', case)
         return
     j, j2 = r12[1], r21[1]
+    if j.namespace != (s2.namespace or s1.namespace) or j2.namespace != (s1.namespace or s2.namespace) \
+            or j.none_is_leaf != s1.none_is_leaf:
+        res.fail("the common suffix does not carry the operands' namespace / none_is_leaf", case,
+                 f'{s1.namespace!r} {s2.namespace!r} -> {j.namespace!r} / {j2.namespace!r}')
     if not s1.is_prefix(j) or not s2.is_prefix(j):
         res.fail('the common suffix is not an upper bound of the operands', case, f'{s1} {s2} -> {j}')
     if not (j.is_prefix(j2) and j2.is_prefix(j)):
